@@ -59,6 +59,9 @@ pub enum COp {
     AbortSpawner(usize),
     Status(usize),
     Join(usize),
+    /// Monitor(monitor, target)
+    Monitor(usize, usize),
+    Unmonitor(usize, usize),
     Pause,
 }
 
@@ -372,6 +375,21 @@ async fn client(sc: Arc<Scenario>, w: W, ops: Vec<COp>, run_tag: String) {
                     }
                 }
             }
+            COp::Monitor(m, i) | COp::Unmonitor(m, i) => {
+                let (mc, tc) = {
+                    let g = w.lock().unwrap();
+                    (g.cells[m].clone(), g.cells[i].clone())
+                };
+                if let (Some(mc), Some(tc)) = (mc, tc) {
+                    if matches!(op, COp::Monitor(..)) {
+                        mc.monitor(tc);
+                        obs("obs.monitor", &sc.actors[i].name, 0, vec![kvs("by", &sc.actors[m].name)]);
+                    } else {
+                        mc.unmonitor(tc);
+                        obs("obs.unmonitor", &sc.actors[i].name, 0, vec![kvs("by", &sc.actors[m].name)]);
+                    }
+                }
+            }
             COp::Status(i) => {
                 let cell = w.lock().unwrap().cells[i].clone();
                 if let Some(c) = cell {
@@ -397,7 +415,7 @@ async fn client(sc: Arc<Scenario>, w: W, ops: Vec<COp>, run_tag: String) {
 
 const KEEP: &[&str] = &[
     "obs.cb_enter", "obs.cb_exit", "obs.tick", "obs.yield", "obs.resume", "obs.send", "obs.kill", "obs.stop", "obs.drain",
-    "obs.inject", "obs.abort", "obs.status", "obs.join_begin", "obs.join_ret", "obs.spawn_call", "obs.spawn_ret", "obs.start_ret",
+    "obs.inject", "obs.abort", "obs.monitor", "obs.unmonitor", "obs.status", "obs.join_begin", "obs.join_ret", "obs.spawn_call", "obs.spawn_ret", "obs.start_ret",
     "port.stop", "port.sup", "port.msg", "port.drain", "sig.handled", "guard.cleanup", "guard.done", "task.dropped",
     "decode.dropped", "obs.end", "task.panicked",
 ];
@@ -496,7 +514,7 @@ pub fn one_run(sc: &Scenario, ex: &mut Explorer) -> (Vec<Value>, Value, bool) {
         evs.push(j);
     }
     let fin = fin.lock().unwrap().clone();
-    evs.push(json!({"a": "obs.end", "who": "drv", "obj": "", "d": 0, "t": 0, "x": "", "fin": fin}));
+    evs.push(json!({"a": "obs.end", "who": "drv", "obj": "", "d": 0, "t": 0, "x": "", "fin": fin, "q": i64::from(run.quiescent)}));
     let bad = !run.quiescent;
     let meta = json!({"family": "lifecycle", "scenario": format!("{:?}", sc), "sched": ex.sched, "steps": run.steps,
                       "quiescent": run.quiescent});
@@ -545,9 +563,24 @@ pub fn rand_scenario(rng: &mut Rng) -> Scenario {
     if three {
         actors.push(ActorSpec { name: "B".into(), sup: Some(1), instant: rng.chance(1, 4), helper: false, script: { let f = rng.chance(1, 3); mk_script(rng, f, false) } });
     }
-    let mut c0 = vec![COp::Spawn(0), COp::Spawn(1)];
+    let with_mon = rng.chance(1, 3);
+    let mon_idx = actors.len();
+    if with_mon {
+        actors.push(ActorSpec { name: "M".into(), sup: None, instant: false, helper: false, script: Script { sup: vec![Op::Tick], ..Default::default() } });
+    }
+    let mut c0 = vec![COp::Spawn(0)];
+    if with_mon {
+        c0.push(COp::Spawn(mon_idx));
+    }
+    c0.push(COp::Spawn(1));
+    if with_mon {
+        c0.push(COp::Monitor(mon_idx, 1));
+    }
     if three {
         c0.push(COp::Spawn(2));
+        if with_mon && rng.chance(1, 2) {
+            c0.push(COp::Monitor(mon_idx, 2));
+        }
     }
     for _ in 0..rng.below(3) {
         c0.push(COp::Send(1));
@@ -578,11 +611,13 @@ pub fn rand_scenario(rng: &mut Rng) -> Scenario {
     if rng.chance(1, 2) {
         let mut c2 = vec![COp::Pause];
         for _ in 0..(1 + rng.below(2)) {
-            c2.push(match rng.below(4) {
+            c2.push(match rng.below(if with_mon { 6 } else { 4 }) {
                 0 => COp::Send(1),
                 1 => COp::Inject(1),
                 2 => COp::Status(1),
-                _ => COp::Stop(1),
+                3 => COp::Stop(1),
+                4 => COp::Unmonitor(mon_idx, 1),
+                _ => COp::Monitor(mon_idx, 1),
             });
         }
         clients.push(c2);
@@ -620,6 +655,24 @@ pub fn micro_scenarios() -> Vec<Scenario> {
         Scenario {
             actors: vec![s(vec![Op::Tick]), a(Script { post: vec![Op::Tick], handle: vec![vec![Op::Tick], vec![Op::Panic]], sup: vec![Op::Yield], pstop: vec![Op::Err], ..Default::default() }, false, false)],
             clients: vec![vec![COp::Spawn(0), COp::Spawn(1), COp::Send(1), COp::Inject(1), COp::Send(1), COp::Join(1)], vec![COp::Inject(1), COp::Stop(1)]],
+        },
+        // a monitor next to the supervisor: every exit cause, one terminal copy each
+        Scenario {
+            actors: vec![
+                s(vec![Op::Tick]),
+                a(Script { handle: vec![vec![Op::Tick], vec![Op::Err]], pstop: vec![Op::Tick], ..Default::default() }, false, false),
+                ActorSpec { name: "M".into(), sup: None, instant: false, helper: false, script: Script { sup: vec![Op::Tick], ..Default::default() } },
+            ],
+            clients: vec![
+                vec![COp::Spawn(0), COp::Spawn(2), COp::Spawn(1), COp::Monitor(2, 1), COp::Send(1), COp::Join(1)],
+                vec![COp::Pause, COp::Stop(1)],
+                vec![COp::Pause, COp::Send(1), COp::AbortLoop(1)],
+            ],
+        },
+        // abort of the loop task before its first poll, and right after post_start
+        Scenario {
+            actors: vec![s(vec![Op::Tick]), a(Script { post: vec![Op::Tick], ..Default::default() }, false, false)],
+            clients: vec![vec![COp::Spawn(0), COp::Spawn(1), COp::AbortLoop(1), COp::Join(1)], vec![COp::Pause, COp::Status(1)]],
         },
         // supervisor dies while the child starts (link refused / swept)
         Scenario {
